@@ -324,6 +324,14 @@ func (p *Program) sense(f *ssa.Function) *funcSense {
 						for _, b := range ys {
 							k, _, _, _, _ := cmpAtom(x.Op, a, b)
 							add(k)
+
+							// `a == b` / `a != b` over two booleans ties their outcomes together
+							// (known(a), known(a==b) ⇒ known(b)): remember all three
+							if (x.Op == token.EQL || x.Op == token.NEQ) && isBoolValue(a) && isBoolValue(b) {
+								s.multi[k] = true
+								s.multi["T|"+valueID(stripIface(a))] = true
+								s.multi["T|"+valueID(stripIface(b))] = true
+							}
 						}
 					}
 
@@ -1540,4 +1548,66 @@ func (e *pathEnv) gatedValue(phi *ssa.Phi) ssa.Value {
 	}
 
 	return nil
+}
+
+func isBoolValue(v ssa.Value) bool {
+	if _, isConst := v.(*ssa.Const); isConst {
+		return false
+	}
+
+	b, ok := v.Type().Underlying().(*types.Basic)
+
+	return ok && b.Kind() == types.Bool
+}
+
+// known looks an atom up in the path's facts, also deriving it from an equality of two booleans:
+// known(a == b) and known(a) give b; known(a) and known(b) give a == b.
+func (e *pathEnv) known(key string) (truth, ok bool) {
+	if f, has := e.facts[key]; has {
+		return f.truth, true
+	}
+
+	switch {
+	case strings.HasPrefix(key, "T|"):
+		id := key[2:]
+
+		for k, f := range e.facts {
+			if !strings.HasPrefix(k, "==|") {
+				continue
+			}
+
+			parts := strings.Split(k, "|")
+			if len(parts) != 3 {
+				continue
+			}
+
+			other := ""
+
+			switch id {
+			case parts[1]:
+				other = parts[2]
+			case parts[2]:
+				other = parts[1]
+			default:
+				continue
+			}
+
+			if of, has := e.facts["T|"+other]; has {
+				// a == b is f.truth; b is of.truth ⇒ a is (f.truth == of.truth)
+				return f.truth == of.truth, true
+			}
+		}
+	case strings.HasPrefix(key, "==|"):
+		parts := strings.Split(key, "|")
+		if len(parts) == 3 {
+			a, okA := e.facts["T|"+parts[1]]
+			b, okB := e.facts["T|"+parts[2]]
+
+			if okA && okB {
+				return a.truth == b.truth, true
+			}
+		}
+	}
+
+	return false, false
 }
